@@ -67,12 +67,12 @@ theorem hold_actorExit {b a k : Nat} (t : St) (c : Nat) (hc : c ≠ a) (p : Hold
     · exact res_trans (s1.ext.trans e2) e3 (res_rebase s1.ext h) tailR
     · exact res_rebase (s1.ext.trans e2) ((tailH h).2 hcb)
 
-/-- what makes `b` a holder that `turn_off` will reach: a live actor of the host, not yet marked dying, `Private` -/
+/-- what makes `b` a holder that `turn_off` will reach: a live actor of the host, not yet dying
+(before the fix of `host-off-marks-peer-dying-without-exit` the structure also needed `Private t h b`) -/
 structure HolderOK (t : St) (h b : Nat) : Prop where
   host : (t.actors b).host = h
   ended : (t.actors b).ended = false
   wd : (t.actors b).wannadie = false
-  priv : Private t h b
 
 theorem hold_killOn {b a k : Nat} (h : Nat) (t : St) (c : Nat) (hoff : t.hostOn h = false) (p : HoldS t b a k)
     (ho : HolderOK t h b) :
@@ -105,7 +105,7 @@ theorem hold_killOn {b a k : Nat} (h : Nat) (t : St) (c : Nat) (hoff : t.hostOn 
 theorem holderOK_killOn (h : Nat) (t : St) (c b : Nat) (hcb : c ≠ b) (ho : HolderOK t h b) : HolderOK (killOn h t c) h b := by
   have m := mono_killOn h t c
   exact ⟨by rw [m.host]; exact ho.host, by rw [m.ended]; exact ho.ended,
-    by rw [killOn_wd_frame h t c b hcb ho.priv]; exact ho.wd, private_mono m ho.priv⟩
+    by rw [killOn_wd_frame h t c b hcb]; exact ho.wd⟩
 
 /-- the kill loop reaches the holder -/
 theorem hold_killFold {b a k : Nat} (h : Nat) (L : List Nat) : ∀ t, t.hostOn h = false → HoldS t b a k → HolderOK t h b →
@@ -166,7 +166,7 @@ theorem res_hostOff_comm (s1 : St) (h k a b : Nat) (hoff : s1.hostOn h = false) 
   obtain ⟨c1, c2⟩ := cpuPhase_comm h s1 k p.kind
   have p2 : HoldS (cpuPhase h s1) b a k := hold_of_simp_ne sp c1 (fun hm => by rw [c2]; exact hm) p
   have ho2 : HolderOK (cpuPhase h s1) h b :=
-    ⟨by rw [c2]; exact ho.host, by rw [c2]; exact ho.ended, by rw [c2]; exact ho.wd, private_mono m1 ho.priv⟩
+    ⟨by rw [c2]; exact ho.host, by rw [c2]; exact ho.ended, by rw [c2]; exact ho.wd⟩
   have hoff2 : (cpuPhase h s1).hostOn h = false := by rw [sp.ext.hostOn]; exact hoff
   have r3 : Res (cpuPhase h s1) (killPhase h (cpuPhase h s1)) a k (.exc .net) := by
     unfold killPhase
